@@ -94,6 +94,7 @@ def hasPanic : PR ι → Bool
   | .dead => true
   | .seq a b => hasPanic a || hasPanic b
   | .par a b => hasPanic a || hasPanic b
+  | .scope _ body => hasPanic body
   | .scopeOpen _ body => hasPanic body
   | _ => false
 
